@@ -155,8 +155,21 @@ fn check(text: &[u8], rep: &mut Reporter, case_idx: u64, slow: bool) {
     edits.push((0, "magic", MAGIC.swap_bytes()));
     edits.push((0, "magic", 0));
     edits.push((0, "magic", u32::from_le_bytes(*b"PRGD")));
-    for v in [0u32, 2, u32::MAX] {
+    for v in [0u32, 2, u32::MAX, 0x0001_0001, 0x8000_0001, 0x0000_0101, 0x0100_0000, 3] {
         edits.push((4, "version", v));
+    }
+    // every single-bit flip of the 24-byte header
+    for (off, name, cur_v) in [
+        (0usize, "magic", hdr.magic),
+        (4, "version", hdr.version),
+        (8, "num_classes", hdr.num_classes),
+        (12, "num_members", hdr.num_members),
+        (16, "num_by_params", hdr.num_by_params),
+        (20, "string_bytes", hdr.string_bytes),
+    ] {
+        for bit in 0..32 {
+            edits.push((off, name, cur_v ^ (1u32 << bit)));
+        }
     }
     for (off, name, cur_v) in [(8usize, "num_classes", hdr.num_classes), (12, "num_members", hdr.num_members), (16, "num_by_params", hdr.num_by_params), (20, "string_bytes", hdr.string_bytes)] {
         for v in [0u32, cur_v.wrapping_sub(1), cur_v.wrapping_add(1), cur_v.wrapping_add(1000), 1 << 31, u32::MAX] {
@@ -212,7 +225,7 @@ fn check(text: &[u8], rep: &mut Reporter, case_idx: u64, slow: bool) {
         let mut s = Json::obj();
         s.set("layout", Json::s(format!("{layout:?}")));
         s.set("file_len", Json::i(bytes.len() as u64));
-        s.set("faults", Json::s("every prefix length 0..len-1, 30 header edits"));
+        s.set("faults", Json::s("every prefix length 0..len-1, 35 listed header edits, all 192 single-bit flips of the header"));
         rep.sample(s);
     }
 }
